@@ -131,12 +131,17 @@ func dictWorkerPart(tier string, shard, nshard int, out *WorkerOut) {
 					for _, n := range frontier {
 						for ai := range alpha {
 							// successor = replay on a fresh field + one observation
-							s := newDictState(limit, minCard, thr)
+							var s *dictState
 							bad := ""
-							for _, h := range n.hist {
-								s.apply(alpha[h], limit, st)
+							if pan := protect(func() {
+								s = newDictState(limit, minCard, thr)
+								for _, h := range n.hist {
+									s.apply(alpha[h], limit, st)
+								}
+								bad = s.apply(alpha[ai], limit, st)
+							}); pan != "" {
+								bad = "the dictionary state machine panicked: " + firstLine(pan)
 							}
-							bad = s.apply(alpha[ai], limit, st)
 							out.Transitions++
 							if bad != "" {
 								k := cfgName + "|" + msgClass(bad)
